@@ -338,6 +338,13 @@ class C01(Machine):
                 val.type == tv.type:
             R.probe("both_raised")
             return
+        # a projection twin is an object of a base class: where the
+        # object's own class overrides something the query calls, one side
+        # raises and the other does not -- nothing to compare
+        if how == "projection" and (isinstance(val, C.Raised)
+                                    or isinstance(tv, C.Raised)):
+            R.probe("projection_not_comparable")
+            return
         # a projection twin holds float64 copies of weights the object may
         # keep in single precision: compare at single-precision accuracy
         tol = (1e-4, 1e-6) if how == "projection" else "tight"
